@@ -30,6 +30,8 @@ func init() {
 			"degenerate geometries (0 columns/rows) are not decided",
 		},
 		Controls: []Control{
+			{Name: "tab stops at the right margin", File: "kernel/device/tty/vt.go", Old: "\t\t\tt.doWrite(' ', true)\n\t\t}\n\tdefault:", New: "\t\t\tt.doWrite(' ', true)\n\t\t\tif t.cursorX == 1 {\n\t\t\t\tbreak\n\t\t\t}\n\t\t}\n\tdefault:", Expect: "C17.R1"},
+			{Name: "carriage return goes to column two", File: "kernel/device/tty/vt.go", Old: "\tt.cursorX = 1\n\tt.updateDataOffset()\n}", New: "\tt.cursorX = 2\n\tt.updateDataOffset()\n}", Expect: "C17.R1"},
 			{Name: "drop updateDataOffset in cr", File: "kernel/device/tty/vt.go", Old: "\tt.cursorX = 1\n\tt.updateDataOffset()\n}", New: "\tt.cursorX = 1\n}", Expect: "C17.R3"},
 			{Name: "drop the upper clamp in SetCursorPosition", File: "kernel/device/tty/vt.go", Old: "\t} else if x > t.viewportWidth {\n\t\tx = t.viewportWidth\n\t}", New: "\t}", Expect: "C17.R2"},
 			{Name: "backspace in column one", File: "kernel/device/tty/vt.go", Old: "\t\tif t.cursorX > 1 {\n\t\t\tt.SetCursorPosition", New: "\t\tif t.cursorX >= 1 {\n\t\t\tt.SetCursorPosition", Expect: "C17.R1"},
